@@ -274,9 +274,14 @@ type geomDecoder struct {
 }
 
 func (gd *geomDecoder) decodePoint() (orb.Geometry, error) {
-	_, count, err := gd.cmdAndCount()
+	cmd, count, err := gd.cmdAndCount()
 	if err != nil {
 		return nil, err
+	}
+
+	if cmd != moveTo {
+		// the count of other commands is not checked against the data length
+		return nil, errors.New("first command not a moveTo")
 	}
 
 	if count == 1 {
